@@ -107,6 +107,10 @@ func (w *World) findProcRolesUncached() *procRoles {
 	if pr.restartFn == nil {
 		bad("no restart function (method of process called from a recover handler that calls Start)")
 	}
+	aliasRole(pr.stopFn, "(*actor.process).cleanup")
+	aliasRole(pr.restartFn, "(*actor.process).tryRestart")
+	aliasRole(pr.deliverFn, "(*actor.process).invokeMsg")
+	aliasRole(pr.applyMW, "actor.applyMiddleware")
 	if len(pr.problems) == 0 {
 		rn := map[string]string{pr.start.Name(): "Start", pr.invoke.Name(): "Invoke", pr.shutdown.Name(): "Shutdown",
 			pr.stopFn.Name(): "stop", pr.restartFn.Name(): "restart", pr.deliverFn.Name(): "deliver"}
